@@ -316,6 +316,14 @@ def build_cases(ctx, n_rand, rational_only):
             trees.append(("conv", ("tag", L(3), s), s))
             trees.append(("bin", "QAdd", ("tag", L(3), s), ("tag", L(4), s)))
             trees.append(("bin", "QAdd", ("tag", L(3), s), Q(1, ulen[0])))
+    # near-miss dimensions: same units, exponents differing by one (accepted iff equal)
+    for a in range(-3, 4):
+        for b in range(-3, 4):
+            sa, sb = ([(ulen[0], 1), (utime[0], a)], []), ([(ulen[0], 1), (utime[0], b)], [])
+            if a and b:
+                trees.append(("bin", "QAdd", ("tag", L(1), sa), ("tag", L(2), sb)))
+                trees.append(("conv", ("tag", L(6), sa), sb))
+                trees.append(("cmp", "QLe", ("tag", L(1), sa), ("tag", L(2), sb)))
     # offset units in every position
     for n in ("degC", "degF"):
         if n in units:
